@@ -43,6 +43,10 @@ def gen_requests(ctx):
         if solver == "panoc" and rng.random() < 0.15: params.append("solver.eager_gradient_eval=true")
         script = [rng.choice([0, 1, 2, 3, 4, 5, 6, 7, 8]) for _ in range(rng.randint(1, 5))] if direction == "scripted" else []
         y0 = rng.vec(prob.m, 2.0); S0 = [rng.choice([0.5, 1.0, 4.0, 100.0]) for _ in range(prob.m)]
+        if rng.random() < 0.3:      # provider mix: the problem supplies some optional combined members itself and scribbles over the work buffers
+            prob.prov = rng.choice([0x80, 0x20, 0x40, 0x10, 0xa0, 0xfe, rng.randrange(0, 256) & 0xfe])
+            if solver == "panoc" and rng.random() < 0.6 and "solver.eager_gradient_eval=true" not in params:
+                params.append("solver.eager_gradient_eval=true")
         reqs.append((scenario, sl.Request(prob, x0, y0, S0, solver, direction, "inner", params, always=rng.random() < 0.5, tol=tol, script=script, **kw)))
     return reqs
 
@@ -64,10 +68,15 @@ def relations(p, x_out, y_out, e_out, y_in, S, tag, finite_required=True, x_prev
     g = p.g(x_out)
     for i in range(p.m):
         s = S[0] if len(S) == 1 else S[i]
-        if not all(math.isfinite(t) and abs(t) < 1e150 for t in (g[i], e_out[i], y_out[i], y_in[i])):
+        if not all(math.isfinite(t) and abs(t) < 1e150 for t in (g[i], y_in[i])):
             continue        # overflowing (diverged) run: the relations are not meaningful in binary64
         z = g[i] + y_in[i] / s
         e_ref = g[i] - min(max(z, p.Dlb[i]), p.Dub[i])
+        if not (abs(e_ref) < 1e150 and abs(y_in[i] + s * e_ref) < 1e150):
+            continue
+        if not (math.isfinite(e_out[i]) and math.isfinite(y_out[i])):
+            bad.append(("C03:y-or-errz-not-finite:" + tag, "err_z[%d]=%r y[%d]=%r although x, g(x), y_in are finite (g=%r, recomputed err=%r)" % (i, e_out[i], i, y_out[i], g[i], e_ref)))
+            continue
         tol = 1e-9 * (1 + abs(g[i]) + abs(y_in[i] / s))
         if not (abs(e_out[i] - e_ref) <= tol):
             bad.append(("C03:errz-not-recomputable:" + tag, "err_z[%d]=%r but g(x)-Pi_D(g(x)+y/Sigma)=%r" % (i, e_out[i], e_ref)))
